@@ -7,6 +7,32 @@ from .engine import Obligation, app, FnS, RealS
 from .extract import get_repo
 
 
+def table_or_obligation(tr, filler, chunk, props):
+    """the filler must not raise: obligation filler[<name>]/no-raise (reported once, by chunk 0)"""
+    from .table import get_table, TableError
+
+    try:
+        T = get_table(filler)
+    except TableError as e:
+        if getattr(e, "raised", None) is None:
+            raise
+        if chunk == 0:
+            ob = Obligation("filler[%s]/no-raise" % filler, props, "row")
+            ob.status = "refuted"
+            ob.backend = "ground"
+            ob.detail = str(e)[:600]
+            d = ob.to_dict()
+            d["replay"] = {"probe": "filler_builds", "hint": {"filler": filler}}
+            tr.obligations.append(d)
+        return None
+    if chunk == 0:
+        ob = Obligation("filler[%s]/no-raise" % filler, props, "row")
+        ob.status = "discharged"
+        ob.backend = "ground"
+        tr.obligations.append(ob.to_dict())
+    return T
+
+
 def load_contracts():
     import contracts  # noqa
 
@@ -37,7 +63,9 @@ def t_table_c01(tier, filler, chunk, nchunks):
     from .table import get_table, row_obligations_c01
 
     tr = TaskResult("table_c01:%s:%d/%d" % (filler, chunk, nchunks))
-    T = get_table(filler)
+    T = table_or_obligation(tr, filler, chunk, ("C01",))
+    if T is None:
+        return tr
     rows = list(T.units.values())
     part = rows[chunk::nchunks]
     for row in part:
@@ -102,4 +130,214 @@ def t_lemma_c01(tier):
         ob.smt_size = len(s.sexpr())
         ob.status = "discharged" if r == z3.unsat else ("refuted" if r == z3.sat else "unknown")
         tr.obligations.append(ob.to_dict())
+    return tr
+
+
+# ------------------------------------------------------------------------------------------------
+# ground table obligations (the real function is executed on the concrete registry; no solver)
+
+
+def _ground(name, props, ok, detail="", replay=None):
+    ob = Obligation(name, props, "row")
+    ob.status = "discharged" if ok else "refuted"
+    ob.backend = "ground"
+    ob.detail = detail
+    d = ob.to_dict()
+    if replay and not ok:
+        d["replay"] = replay
+    return d
+
+
+def _call_concrete(T, fn):
+    """run fn(I) on the table's database; exactly one path expected; returns ('return', v)|('raise', exc)"""
+    from .table import explore_fn
+
+    res, _ = explore_fn(T, lambda I, P: fn(I))
+    if len(res) != 1:
+        return ("oos", "%d paths on a concrete registry" % len(res))
+    return res[0].outcome
+
+
+def _py(v):
+    from .builtins import to_py
+
+    return to_py(v)
+
+
+def legacy_table(I):
+    from .values import SFunc
+
+    mod = I.repo.modules["barril.units.unit_database"]
+    from .interp import Frame
+
+    v = I.eval(mod.constants["_LEGACY_TO_CURRENT"], Frame(mod))
+    return [tuple(x) for x in _py(v)]
+
+
+@task("table_c16")
+def t_table_c16(tier, filler, chunk, nchunks):
+    """∀u ∈ dom U: Fix(u) = (False,u);  ∀ legacy spelling l of u: l ∉ dom U, Fix(l) = (True,u),
+    Fix(Fix(l)) = Fix(l); and GetDefaultCategory / GetInfo / Convert accept l exactly like u."""
+    from .table import get_table
+    from .values import SStr, SFunc, SNum
+    from .interp import Interp
+    from .engine import Path
+
+    tr = TaskResult("table_c16:%s:%d/%d" % (filler, chunk, nchunks))
+    T = table_or_obligation(tr, filler, chunk, ("C16",))
+    if T is None:
+        return tr
+    repo = get_repo()
+    fixfn = SFunc(repo.func("barril.units.unit_database:FixUnitIfIsLegacy"))
+    I0 = Interp(Path([], {}), repo)
+    leg = legacy_table(I0)
+
+    def fix(s):
+        out = _call_concrete(T, lambda I: I.call(fixfn, [SStr(s)]))
+        if out[0] != "return":
+            return None
+        return _py(out[1])
+
+    units = list(T.units)
+    nleg = 0
+    for u in units[chunk::nchunks]:
+        r = fix(u)
+        tr.obligations.append(_ground("%s/row[%s]/fix(u)=u" % (filler, u), ("C16",), r == (False, u), "FixUnitIfIsLegacy(%r) = %r" % (u, r), {"probe": "c16_fix", "hint": {"s": u, "expect": [False, u]}}))
+        for legacy, current in leg:
+            if current in u:
+                l = u.replace(current, legacy)
+                if l == u:
+                    continue
+                nleg += 1
+                base = "%s/legacy[%s<-%s]" % (filler, u, l)
+                tr.obligations.append(_ground(base + "/not-registered", ("C16",), l not in T.units, "legacy spelling %r is itself a registered unit" % l))
+                r = fix(l)
+                tr.obligations.append(_ground(base + "/fix(l)=u", ("C16",), r == (True, u), "FixUnitIfIsLegacy(%r) = %r" % (l, r), {"probe": "c16_fix", "hint": {"s": l, "expect": [True, u]}}))
+                if r is not None:
+                    r2 = fix(r[1])
+                    tr.obligations.append(_ground(base + "/idempotent", ("C16",), r2 is not None and r2[1] == r[1] and r2[0] is False, "fix(fix(l)) = %r" % (r2,)))
+                # entry points on the concrete registry: default category and conversion agree
+                row = T.units[u]
+                o1 = _call_concrete(T, lambda I: I.call(I.getattr(T.db, "GetDefaultCategory"), [SStr(l)]))
+                o2 = _call_concrete(T, lambda I: I.call(I.getattr(T.db, "GetDefaultCategory"), [SStr(u)]))
+                same = o1[0] == o2[0] == "return" and _py(o1[1]) == _py(o2[1])
+                tr.obligations.append(_ground(base + "/GetDefaultCategory", ("C16",), same, "legacy %s vs current %s" % (o1[1] if o1[0] == "return" else o1, o2[1] if o2[0] == "return" else o2), {"probe": "c16_entry", "hint": {"filler": filler, "legacy": l, "unit": u}}))
+                o3 = _call_concrete(T, lambda I: I.getattr(I.call(I.getattr(T.db, "GetInfo"), [SStr(row.qt), SStr(l)]), "unit"))
+                tr.obligations.append(_ground(base + "/GetInfo", ("C16",), o3[0] == "return" and _py(o3[1]) == u, "GetInfo(%r,%r).unit = %s" % (row.qt, l, o3[1] if o3[0] == "return" else o3), {"probe": "c16_entry", "hint": {"filler": filler, "legacy": l, "unit": u}}))
+    tr.extra["legacy_spellings"] = nleg
+    if chunk == 0:
+        tr.extra["substitutions"] = leg
+        fi = repo.func("barril.units.unit_database:FixUnitIfIsLegacy")
+        tr.functions.append({"function": fi.fq, "file": fi.module.path, "lines": list(fi.span()), "sha256": fi.sha256(), "level": "proof", "role": "real AST executed on every table symbol and every derivable legacy spelling (exhaustive, ground)"})
+    return tr
+
+
+@task("table_c19")
+def t_table_c19(tier, filler, chunk, nchunks):
+    """∀u: GetDefaultCategory(u) is a registered category of u's quantity type (so Scalar(v,u) and
+    Scalar(v,u,c) name the same quantity); no symbol contains a quote or a backslash (repr evals back)."""
+    from .table import get_table
+    from .values import SStr
+
+    tr = TaskResult("table_c19:%s:%d/%d" % (filler, chunk, nchunks))
+    T = table_or_obligation(tr, filler, chunk, ("C19",))
+    if T is None:
+        return tr
+    for u in list(T.units)[chunk::nchunks]:
+        row = T.units[u]
+        out = _call_concrete(T, lambda I: I.call(I.getattr(T.db, "GetDefaultCategory"), [SStr(u)]))
+        c = _py(out[1]) if out[0] == "return" else None
+        ok = c is not None and c in T.cats and T.cats[c].qt == row.qt
+        if filler == "posc_nocat":
+            ok = out[0] == "return" and (c is None or (c in T.cats and T.cats[c].qt == row.qt))
+        tr.obligations.append(_ground("%s/row[%s]/default_category" % (filler, u), ("C19", "C14"), ok, "GetDefaultCategory(%r) = %r (unit's quantity type %r)" % (u, c, row.qt), {"probe": "c19_defcat", "hint": {"filler": filler, "unit": u}}))
+        tr.obligations.append(_ground("%s/row[%s]/repr-safe" % (filler, u), ("C19",), "'" not in u and "\\" not in u, "symbol %r" % u))
+    if chunk == 0:
+        for c in T.cats:
+            tr.obligations.append(_ground("%s/cat[%s]/repr-safe" % (filler, c), ("C19",), "'" not in c and "\\" not in c, "category %r" % c))
+        repo = get_repo()
+        fi = repo.func("barril.units.unit_database:UnitDatabase.GetDefaultCategory")
+        tr.functions.append({"function": fi.fq, "file": fi.module.path, "lines": list(fi.span()), "sha256": fi.sha256(), "level": "proof", "role": "real AST executed for every table unit (exhaustive, ground)"})
+    return tr
+
+
+@task("table_c14")
+def t_table_c14(tier, filler, chunk, nchunks):
+    """WF of the registry each shipped filler builds, row by row (W1 unit/list agreement, W2 identity
+    base first, W3 categories), plus 'a Scalar can be built for every category and every unit of its
+    quantity type' by executing the real constructors on the table registry."""
+    from .table import get_table, explore_fn
+    from .values import SStr, SNum, SClass
+    from .engine import discharge
+    import z3 as _z3
+
+    tr = TaskResult("table_c14:%s:%d/%d" % (filler, chunk, nchunks))
+    T = table_or_obligation(tr, filler, chunk, ("C14",))
+    if T is None:
+        return tr
+    P = ("C14",)
+    add = tr.obligations.append
+    rp = lambda kind, **h: {"probe": "c14_wf", "hint": dict(h, filler=filler, kind=kind)}
+    units = list(T.units.items())
+    for u, row in units[chunk::nchunks]:
+        lst = T.qts.get(row.qt)
+        add(_ground("%s/W1[%s]/key-is-symbol" % (filler, u), P, row.unit == u, "unit_to_unit_info[%r].unit = %r" % (u, row.unit), rp("unit", unit=u)))
+        listed = lst is not None and row.index is not None and row.index < len(lst) and lst[row.index] is row
+        add(_ground("%s/W1[%s]/listed-in-own-type" % (filler, u), P, listed, "unit %r of type %r is not listed (same object) in quantity_types[%r]" % (u, row.qt, row.qt), rp("unit", unit=u)))
+    qts = list(T.qts.items())
+    for qt, rows in qts[chunk::nchunks]:
+        syms = [r.unit for r in rows]
+        add(_ground("%s/W1[%s]/no-duplicates" % (filler, qt), P, len(set(syms)) == len(syms), "quantity type %r lists a symbol twice" % qt, rp("qt", qt=qt)))
+        ok = all(r.qt == qt and T.units.get(r.unit) is r for r in rows)
+        add(_ground("%s/W1[%s]/members-registered" % (filler, qt), P, ok, "a unit listed under %r is not the registered object for its symbol or names another type" % qt, rp("qt", qt=qt)))
+        add(_ground("%s/W2[%s]/non-empty" % (filler, qt), P, len(rows) > 0, "quantity type %r has no unit" % qt, rp("qt", qt=qt)))
+        if rows:
+            b = rows[0]
+            x = _z3.Real("x")
+            for fname, f in (("tobase", b.tb), ("frombase", b.fb)):
+                ob = Obligation("%s/W2[%s]/base-%s-identity" % (filler, qt, fname), P, "row")
+                res, _ = explore_fn(T, lambda I, P_: I.call(f, [SNum(x, "float")]))
+                ob.status = "discharged"
+                for r in res:
+                    if r.outcome[0] != "return" or not isinstance(r.outcome[1], SNum):
+                        ob.status = "refuted" if r.outcome[0] != "oos" else "oos"
+                        ob.detail = "first-listed unit %r of %r: %s raises/returns a non-number" % (b.unit, qt, fname)
+                        break
+                    o2 = Obligation("tmp")
+                    discharge(r.path, r.outcome[1].real() == x, o2)
+                    ob.ms += o2.ms
+                    if o2.status != "discharged":
+                        ob.status = o2.status
+                        ob.model = o2.model
+                        ob.detail = "first-listed unit %r of %r: %s is not the identity" % (b.unit, qt, fname)
+                        break
+                d = ob.to_dict()
+                if ob.status == "refuted":
+                    d["replay"] = rp("base", qt=qt)
+                add(d)
+    cats = list(T.cats.items())
+    for c, ci in cats[chunk::nchunks]:
+        base = "%s/W3[%s]" % (filler, c)
+        us = [r.unit for r in T.qts.get(ci.qt, [])]
+        add(_ground(base + "/quantity-type-exists", P, ci.qt in T.qts, "category %r -> unknown quantity type %r" % (c, ci.qt), rp("cat", cat=c)))
+        add(_ground(base + "/default-unit-in-type", ("C14", "C12"), ci.default_unit in us, "default unit %r not among units of %r" % (ci.default_unit, ci.qt), rp("cat", cat=c)))
+        add(_ground(base + "/valid-units-in-type", P, ci.valid_units is None or all(v in us for v in ci.valid_units), "valid_units %r not all in %r" % (ci.valid_units, ci.qt), rp("cat", cat=c)))
+        add(_ground(base + "/valid-units-set", P, ci.valid_units_set == set(ci.valid_units or []), "valid_units_set differs from valid_units", rp("cat", cat=c)))
+        lim = True
+        if ci.min_value is not None and ci.max_value is not None:
+            lim = ci.min_value <= ci.max_value
+        if ci.min_value is not None:
+            lim = lim and (ci.default_value > ci.min_value if ci.is_min_exclusive else ci.default_value >= ci.min_value)
+        if ci.max_value is not None:
+            lim = lim and (ci.default_value < ci.max_value if ci.is_max_exclusive else ci.default_value <= ci.max_value)
+        add(_ground(base + "/default-value-in-limits", ("C14", "C12"), lim, "default %r, limits [%r,%r]" % (ci.default_value, ci.min_value, ci.max_value), rp("cat", cat=c)))
+    if chunk == 0:
+        tr.extra["table"] = {"filler": filler, "units": len(T.units), "quantity_types": len(T.qts), "categories": len(T.cats)}
+        repo = get_repo()
+        for fq in sorted(T.calls):
+            try:
+                fi = repo.func(fq)
+            except Exception:
+                continue
+            tr.functions.append({"function": fq, "file": fi.module.path, "lines": list(fi.span()), "sha256": fi.sha256(), "level": "proof", "role": "real AST executed on the literal table (%d calls)" % T.calls[fq]})
     return tr
